@@ -58,6 +58,22 @@ def array_support(func):
             return func(*args, **kwargs)
     return iterator
 
+def array_support_binary(func):
+    # like array_support, for functions of two values: the second one can be an array too (both are broadcast)
+    single = array_support(func)
+    def iterator(x, y, **kwargs):
+        if isinstance(y, (list, np.ndarray)) and np.asarray(y).ndim > 0:
+            x_arr, y_arr = np.asarray(x), np.asarray(y)
+            x_b, y_b = np.broadcast_arrays(x_arr.astype(object), y_arr.astype(object))
+            vals = [func(u, v, **kwargs) for u, v in zip(x_b.ravel().tolist(), y_b.ravel().tolist())]
+            if x_arr.dtype == object or y_arr.dtype == object:
+                vals = np.array(vals, dtype=object)     # python integers (extended precision) stay python integers
+            else:
+                vals = np.array(vals)
+            return vals.reshape(x_b.shape)
+        return single(x, y, **kwargs)
+    return iterator
+
 #%%
 @array_support
 def twos_complement_repr(val, nbits):
@@ -406,21 +422,21 @@ def binary_invert(x, n_word=None):
         n_word = bits_len(x)
     return ((1 << n_word) - 1 - int(x)) % (1 << n_word)     # (python integers; the pattern is kept inside the word also for a negative code)
 
-@array_support
+@array_support_binary
 def binary_and(x, y, n_word=None):
     xm = int(x) % (1 << n_word)
     ym = int(y) % (1 << n_word)
     z = xm & ym
     return z
 
-@array_support
+@array_support_binary
 def binary_or(x, y, n_word=None):
     xm = int(x) % (1 << n_word)
     ym = int(y) % (1 << n_word)
     z = xm | ym
     return z
 
-@array_support
+@array_support_binary
 def binary_xor(x, y, n_word=None):
     xm = int(x) % (1 << n_word)
     ym = int(y) % (1 << n_word)
